@@ -14,15 +14,17 @@ from fpv import gen, models, k2
 from fpv.common import frac, qstr
 
 THEOREMS = ["FP.Props.C02.kfd_exact", "FP.Props.C02.kfd_given_exact", "FP.Props.C12.binProd_exact",
-            "FP.Props.C01.pathcore_sound"]
-IMPORTS = ["FP.Props.C02", "FP.Props.C12", "FP.Props.C01"]
-K2_ADAPTERS = ["kfd"]
+            "FP.Props.C01.pathcore_sound", "FP.Props.C04.kfdc_exact", "FP.Props.C04.kfdc_given_weights",
+            "FP.Props.C17.greedy_exact"]
+IMPORTS = ["FP.Props.C02", "FP.Props.C12", "FP.Props.C01", "FP.Props.C04", "FP.Props.C17"]
+K2_ADAPTERS = ["kfd", "kfdc"]
 RULE = ("K2: random kFlowDecomp configurations (constraints, coverage, lengths, ignore sets, given weights, option flags); "
         "K5: random conserving flows (superpositions of weighted paths/walks) for the four flow-decomposition classes, routes "
         "greedy / MILP / given weights / guessed weights, edge and node origin, ignored elements. Non-trivial: solved instance "
         "with >= 2 routes of non-zero weight.")
-MODEL_SCOPE = ("modelled and proven: DAG MILP route and given-weights route; modelled (K2/K1) but not yet proven: cyclic encoder "
-               "(integer products, see C12 intProd theorems) and greedy peeling (see C17); node origin via C11")
+MODEL_SCOPE = ("modelled and proven: DAG MILP route and given-weights route (kfd_exact, kfd_given_exact), cyclic MILP route with "
+               "and without given weights (C04.kfdc_exact, kfdc_given_weights), greedy peeling on DAGs (C17.greedy_exact); "
+               "node origin via C11")
 TRUSTED = ["HiGHS returns an assignment satisfying the LP within its tolerance when it reports kOptimal"]
 ASSUMPTIONS = ["float weights: exactness is in exact arithmetic; numeric residue checked at 1e-6 relative on samples"]
 
